@@ -108,9 +108,10 @@ def free_vars(e):
 
 
 def well_scoped(e):
+    """Each distribution mentions a name at most once; sums may range over any of the (binary) variables."""
     dsl = y0mod("y0.dsl")
     if isinstance(e, dsl.Sum):
-        return {r.name for r in e.ranges} <= free_vars(e.expression) and well_scoped(e.expression)
+        return {r.name for r in e.ranges} <= set(NAMES) and well_scoped(e.expression)
     if isinstance(e, dsl.Product):
         return all(well_scoped(x) for x in e.expressions)
     if isinstance(e, dsl.Fraction):
@@ -213,6 +214,8 @@ class Pool:
             if not f or isinstance(e, dsl.Zero):
                 return None
             rs = rng.sample(f, rng.randint(1, len(f)))
+            if rng.random() < 0.25:
+                rs = sorted(set(rs) | {rng.choice(NAMES)})
             return dsl.Sum(e, frozenset(dsl.Variable(n) for n in rs))
         if cls == "Fraction":
             n, dd = self.gen(d), self.gen(d)
